@@ -97,6 +97,17 @@ Theorem C12_refined_k_hex : forall (tabs : list (list nat) -> tables), (forall t
 Proof. intros tabs H k p t. exact (refined_k_block hex_spec 3 tabs H k p t). Qed.
 Print Assumptions C12_refined_k_hex.
 
+Theorem C12_refined_k_tet : forall (tabs : list (list nat) -> tables), (forall t, tb_t (tabs t) = t) ->
+  forall k p t,
+    length (snd (refined_k tet_step tabs k p t)) = 8 ^ k * length t /\
+    firstn (length p) (fst (refined_k tet_step tabs k p t)) = p.
+Proof.
+  intros tabs H k p t. split.
+  - apply refined_k_cells. intros p0 t0. now rewrite tet_step_cells, H.
+  - apply refined_k_old_vertices. intros p0 t0. apply tet_step_prefix.
+Qed.
+Print Assumptions C12_refined_k_tet.
+
 Theorem C12_refined_k_line : forall (tabs : list (list nat) -> tables), (forall t, tb_t (tabs t) = t) ->
   forall k p t,
     length (snd (refined_k (uniform_line line_spec) tabs k p t)) = 2 ^ k * length t /\
@@ -285,6 +296,19 @@ Proof.
   exact (tri_children_sorted (offs_of tri_spec p tb) (cell_ctx tb k) v0 v1 v2 f0 f1 f2 (asg_c st) Hv Hf H1 H2 H3 H4 H5 Hc).
 Qed.
 Print Assumptions C12_tri_boundary_children_sort_t.
+
+(* non-vacuity of the hypotheses above: the unit square of two increasing triangles with lexicographic facet numbering
+   (t2f = [0;2;1], [2;4;3]); every old facet f is replaced by its two halves around node 4 + f, also the shared one (f = 2) *)
+Example C12_sort_t_instance :
+  let tb := {| tb_t := [[0; 1; 2]; [1; 2; 3]]; tb_edges := []; tb_facets := [[0; 1]; [0; 2]; [1; 2]; [1; 3]; [2; 3]];
+               tb_t2e := []; tb_t2f := [[0; 2; 1]; [2; 4; 3]] |} in
+  let p := [[0; 0]; [1; 0]; [0; 1]; [1; 1]]%Q in
+  let ws := bwrites gen_tri_rfacets (map sort_nat (snd (uniform_block tri_spec 2 p tb))) 2 (tb_t2f tb) gen_tri_bassign in
+  map (fun f => (new_facets_at ws 0 f, new_facets_at ws 1 f)) [0; 1; 2; 3; 4]
+  = [(Some [0; 4], Some [1; 4]); (Some [0; 5], Some [2; 5]); (Some [1; 6], Some [2; 6]); (Some [1; 7], Some [3; 7]);
+     (Some [2; 8], Some [3; 8])].
+Proof. vm_compute. reflexivity. Qed.
+Print Assumptions C12_sort_t_instance.
 
 (* no_hanging_nodes (2-D, trace level): inside every parent the children form a conforming patch whose trace on each
    parent facet consists of the two halves of that facet, cut at the facet's own node; the two halves depend on the
